@@ -673,6 +673,8 @@ def oracle(line, out):
         if (cv.get("fieldsyntax") or cv.get("clsyntax") or cv.get("chunksyntax")) and not good:
             return None                      # garbage from the backend passed through (lenient territory)
         return M_SYNTAX + cv["why"]
+    if cv.get("status") == 101:
+        return None                          # protocol switch: outside this property (Upgrade is switched off)
     started = not cv.get("empty") and cv.get("status") is not None
     # ---- generic: keep-alive only after exactly one complete, self-delimited message
     if cend == "ka":
